@@ -2842,7 +2842,9 @@ func (b *builder) rangeFunc(fn *Function, x Value, rng *ast.RangeStmt, label *lb
 		},
 	}
 	call.setType(xsig.Results())
-	fn.emit(&call, nil)
+	// The call has no syntax of its own. Attribute it to the range statement, so
+	// that checks that report problems at call sites have a position.
+	fn.emit(&call, rng)
 
 	exits := fn.exits[unresolved:]
 	b.buildYieldResume(fn, jump, exits, done)
